@@ -11,6 +11,7 @@ func CoordAnyBits() *rapid.Generator[float64] {
 	special := []float64{0, math.Copysign(0, -1), 1, -1, math.Inf(1), math.Inf(-1), math.NaN(),
 		math.Float64frombits(0x7ff8000000000001), math.Float64frombits(0xfff0000000000001), // NaN payloads
 		math.Float64frombits(0x7ff8000000000000), math.Float64frombits(0xfff8000000000000), // the canonical quiet NaNs other writers use (POINT EMPTY)
+		math.Float64frombits(0x7ff8000000000000), math.Float64frombits(0x7ff8000000000000), math.Float64frombits(0x7ff8000000000000), // (weighted: a point is "empty" to them only when BOTH ordinates are this one)
 		math.SmallestNonzeroFloat64, -math.SmallestNonzeroFloat64, math.MaxFloat64, -math.MaxFloat64,
 		math.Float64frombits(0x000fffffffffffff), 0.1, 1e300, 1e-300, 123456.789}
 	return rapid.OneOf(
